@@ -26,7 +26,7 @@ TIMEOUT = {"quick": 900, "thorough": 3600}
 SCTP_CLONES = {"quick": ['rand3', 'exh9'], "thorough": ['rand10', 'rand11', 'exh15']}
 OUTCOMES = ["refused", "inprogress_ok_gone", "inprogress_fail", "cea_rejected", "cea_timeout", "gone", "error", "dpr",
             "inbound_dup_closed", "pending_inbound_lost", "inbound_dup_then_dpr", "write_error",
-            "inbound_then_gone", "dpr_late_dwa", "dpr_repeated"]
+            "inbound_then_gone", "dpr_late_dwa", "dpr_repeated", "pending_rejected_inbound_dpr"]
 FLAGSETS = [
     dict(persistent=True, always_reconnect=False, reconnect_wait=3, addr=True),
     dict(persistent=True, always_reconnect=True, reconnect_wait=2, addr=True),
@@ -273,7 +273,7 @@ class Case:
                                  else "reconnect.dialled_without_addresses", {})
             # a peer the node never dials: it connects inbound instead
             if outcome in ("refused", "inprogress_ok_gone", "inprogress_fail", "cea_rejected", "cea_timeout",
-                           "pending_inbound_lost", "inbound_then_gone"):
+                           "pending_inbound_lost", "inbound_then_gone", "pending_rejected_inbound_dpr"):
                 outcome = "gone"
             p = h.inbound(ip="10.1.0.1", port=50001)
             h.settle()
@@ -332,6 +332,27 @@ class Case:
             if not s.closed:
                 self.witness("cea_timeout.not_closed", {})
             return True
+        if outcome == "pending_rejected_inbound_dpr":
+            # election: while the dial awaits its CEA the peer connects inbound and becomes ready, then turns the
+            # node's CER down on the dialled connection (the peer still has its inbound one: nothing is lost);
+            # later it leaves with a DPR on the ready connection - that loss follows a DPR like any other
+            q = h.inbound(ip="10.1.0.1", port=50005)
+            h.settle()
+            q.send(M.cer(self.spelled, self.REALM, auth=[4], hbh=1, e2e=5))
+            h.settle()
+            fr = q.drain()
+            if not fr or fr[-1].result_code != 2001:
+                return False
+            self.new_connects()
+            p = s.peer
+            p.drain()
+            cer = [x for x in p.frames if x.h.code == 257]
+            p.send(M.cea(self.spelled, self.REALM, result=4003 if len(self.outcomes) % 2 else 5010,
+                         hbh=cer[-1].h.hbh, e2e=cer[-1].h.e2e))
+            h.settle()
+            self.new_connects()
+            self.run.cov["rejected_dial_beside_ready_inbound"] = self.run.cov.get("rejected_dial_beside_ready_inbound", 0) + 1
+            return self.finish_established(q, "dpr")
         if outcome == "cea_timeout":
             for _ in range(self.cea_timeout + 2):
                 self.tick_and_judge(1, "await-cea")
@@ -512,9 +533,9 @@ def run_shard(spec):
                     i += 1
                     if i % spec["parts"] != spec["part"]:
                         continue
-                    if L == spec["length"] and fi >= 4 and (i // spec["parts"]) % 4:
+                    if L == spec["length"] and fi >= 4 and (i // spec["parts"]) % 6:
                         continue
-                    if L == spec["length"] and fi < 4 and (i // spec["parts"]) % 2 and spec["length"] >= 3:
+                    if L == spec["length"] and fi < 4 and (i // spec["parts"]) % 3 and spec["length"] >= 3:
                         continue
                     run.one(flags, seq)
     else:
